@@ -118,7 +118,7 @@ func c08RawURLs(c *Ctx, td *tsrun.Dir, sc *c08Schema) error {
 		} {
 			add(&c08rCase{rpc: "Shop.Search", method: "GET", target: "/api/v1/search?" + v.q, class: v.class, reqType: "shop.v1.SearchReq",
 				want: `{"q":` + jq(p.want) + `,"limit":7,"cursor":"-5","flag":true,"ratio":0.5,"tenantName":` + jq(p.want) + `,"big":"18446744073709551615"}`,
-				tpl: lits("api", "v1", "search"),
+				tpl:  lits("api", "v1", "search"),
 				fields: []any{fieldSpec("q", "q", false, "string"), fieldSpec("limit", "limit", false, "number"), fieldSpec("cursor", "cursor", false, "int64"),
 					fieldSpec("flag", "flag", false, "boolean"), fieldSpec("ratio", "ratio", false, "number"), fieldSpec("tenant_name", "tenant_name", false, "string"),
 					fieldSpec("big", "big", false, "int64")}},
